@@ -82,8 +82,8 @@ fn set_frame(ft: FatType) {
     // FAT32: the reserved top four bits of the entry survive the update
     if ft == FatType::Fat32 {
         assert!(spec::raw32_full(&dev.data, c) & 0xF000_0000 == spec::raw32_full(&data, c) & 0xF000_0000);
-        kani::cover!(spec::raw32_full(&data, c) & 0xF000_0000 != 0);
     }
+    kani::cover!(ft != FatType::Fat32 || spec::raw32_full(&data, c) & 0xF000_0000 != 0);
     // every other entry is unchanged (FAT12 neighbours share a byte with the written entry)
     let k: u32 = kani::any();
     kani::assume(k < n && k != c);
